@@ -105,5 +105,17 @@ theorem faultUnpack_eq_fields (flags : Nat) (v : Bytes) :
   unfold bodyUnpack faultFields faultOfVals
   fields_norm
 
+def header2Fields : List (String × Field) :=
+  [("flags", .param "flags"), ("packet_type", .enum "PacketType" 0), ("data_rep", .sub "DataRep" 4 8), ("call_id", .int 8 12),
+   ("context_id", .int 12 14), ("opnum", .int 14 16)]
+
+def header2OfVals (vs : List (String × Val)) : CmdValue :=
+  .header2 (getNat vs "packet_type") (getRep vs "data_rep") (getNat vs "call_id") (getNat vs "context_id") (getNat vs "opnum")
+
+/-- `CommandHeader2._unpack(flags, value)`: the value decoder `Command.unpack` dispatches to for command type 3 -/
+theorem header2Unpack_eq_fields (v : Bytes) : cmdValueUnpack 3 v = (evalFields v header2Fields []).map header2OfVals := by
+  unfold cmdValueUnpack header2Fields header2OfVals
+  fields_norm
+
 end Rpc
 end DpapiNg
